@@ -123,6 +123,21 @@ theorem C18_clear_absent_harmless (s : TS) (c : Nat) (h : lookup c s.inst = none
     (s.step (.clear (some c))).1 = s := by
   simp only [TS.step, filter_key_id h]
 
+/-- a construction whose `__init__` raises while the class has no instance registers NOTHING:
+    the state is unchanged (so the next construction runs `__init__` afresh, on a new object) -/
+theorem C18_failed_construction_registers_nothing (s : TS) (c a : Nat) (h : lookup c s.inst = none) :
+    s.step (.constructFail c a) = (s, none) := by
+  simp only [TS.step, h]
+
+/-- … and while the class HAS an instance, that instance is returned and `__init__` is not run
+    at all (so it cannot raise) -/
+theorem C18_failing_args_on_live_instance (s : TS) (c a i : Nat) (h : lookup c s.inst = some i) :
+    s.step (.constructFail c a) = (s, some i) := by
+  simp only [TS.step, h]
+
+/-- non-vacuity -/
+example : (TS.run {} [.constructFail 0 9, .construct 0 1, .constructFail 0 9]).2 = [none, some 0, some 0] := by decide
+
 /-- non-vacuity -/
 example : (TS.run {} [.construct 0 1, .construct 0 4, .construct 1 0, .clear (some 0), .construct 0 5,
     .construct 1 7]).2 = [some 0, some 0, some 1, none, some 2, some 1] := by decide
